@@ -183,6 +183,12 @@ def parse_overlay(path):
             flush()
             m = re.match(r'@(before|after|wrap)\s+"(.*)"(?:\s+#(\d+))?', st)
             sect = (m.group(1), m.group(2), int(m.group(3) or 1))
+        elif st.startswith('@hoist'):
+            # T17 block hoisting, see weave_file. `@hoist "first" "last" name=vbl_x [pin=..]`; section text: `sig ..`, `call ..`,
+            # `tail ..` and the generated function's clauses.
+            flush()
+            m = re.match(r'@hoist\s+"(.*?)"\s+"(.*?)"\s+name=(\w+)(?:\s+pin=(\w+))?', st)
+            sect = ('hoist', m.group(1), m.group(2), m.group(3), m.group(4))
         elif st.startswith('@annot'):
             # T16 closure annotation, see weave_file. Section text: first line `params (<typed params>) -> (<name>: <type>)`,
             # then requires/ensures clauses for the closure (Verus closure syntax).
@@ -687,6 +693,44 @@ class Weaver:
                     edits.append((p, cend, rep(call, ctext)))
                     factories.append(ins(f"{cid0}:T15[{name}]", props,
                                          f"\n#[verifier::external_body]\nfn {name}{sig}\n{clauses}\n{{\n    move {ctext}\n}}\n"))
+                # T17 block hoisting. `@hoist "first" "last" name=vbl_x`: the run of whole statements from the line containing
+                # `first` to the end of the statement containing `last` is replaced by the `call` text (declared replacement,
+                # erasure restores the statements) and becomes, verbatim, the body of a generated `external_body` function
+                # with the directive's signature, followed by the `tail` expression. Same program: the statements run in
+                # the same order with the same operands (what they read is passed in, what later code uses is returned;
+                # a `?` inside them returns the same error through the `?` of the call). ONLY those statements stay
+                # unverified; their text is pinned.
+                for (first, last, name, hpin), text in spec.get('hoist', []):
+                    i0 = next((m.start() for m in re.finditer(re.escape(first), body) if code(f['open'] + m.start())), None)
+                    i1 = next((m.start() for m in re.finditer(re.escape(last), body) if code(f['open'] + m.start())), None)
+                    lines = text.split('\n')
+                    hsig = next((l.strip()[4:].strip() for l in lines if l.strip().startswith('sig ')), None)
+                    hcall = next((l.strip()[5:].strip() for l in lines if l.strip().startswith('call ')), None)
+                    htail = next((l.strip()[5:].strip() for l in lines if l.strip().startswith('tail ')), None)
+                    hclauses = '\n'.join(l for l in lines if not re.match(r'\s*(sig|call|tail) ', l))
+                    if i0 is None or i1 is None or i1 < i0 or not (hsig and hcall and htail):
+                        self.lost.append(f"{rel}: hoist \"{first}\" .. \"{last}\" in {qual}"); continue
+                    a = s.rfind('\n', 0, f['open'] + i0) + 1
+                    i = f['open'] + i1; d = 0
+                    while i < f['close']:
+                        if mask[i]:
+                            if s[i] in '([{': d += 1
+                            elif s[i] in ')]}': d -= 1
+                            elif s[i] == ';' and d == 0: break
+                        i += 1
+                    b = i + 1
+                    btext = s[a:b]
+                    if '/*' in btext:
+                        self.lost.append(f"{rel}: hoist in {qual}: block comment inside the hoisted statements"); continue
+                    bsha = norm_sha(btext)
+                    if hpin and hpin != bsha:
+                        self.soft_lost.append({'desc': f"{rel}: fn {qual}: pinned hoisted statements changed ({bsha} != {hpin}); their trusted contract was reviewed against another text",
+                                               'props': sorted(set(info['props'] or props))})
+                    self.rec("T17", rel, s, a, f"hoisted statements {name} sha={bsha} in {qual}")
+                    ind0 = re.match(r'[ \t]*', s[a:]).group(0)
+                    edits.append((a, b, rep(ind0 + hcall, btext)))
+                    factories.append(ins(f"{cid0}:T17[{name}]", props,
+                                         f"\n#[verifier::external_body]\nfn {name}{hsig}\n{hclauses}\n{{\n{btext}\n{ind0}{htail}\n}}\n"))
                 # T16 closure annotation. `@annot "needle"`: the closure literal `|params| EXPR` that follows the needle (an
                 # argument of a call, EXPR not a block) becomes `|typed params| -> (r: T) requires .. ensures .. { EXPR }`:
                 # same closure (parameter types and the return type were inferred before, are written out now; braces
